@@ -5,9 +5,42 @@ import (
 	"encoding/json"
 	"fmt"
 	"os"
+	"runtime"
+	"sync/atomic"
 	"testing"
 	"time"
 )
+
+// watching is set while a scenario's bubble is running (run.go).
+var watching atomic.Bool
+
+// StallExit is the exit status of a worker whose run in progress stopped producing simulator events.
+const StallExit = 97
+
+// startStallWatchdog starts the only real-time element of a worker: a goroutine outside every bubble
+// that ends the process when the run in progress has produced no simulator event (decision, step,
+// entropy read, log line) for limit of real time. A goroutine blocked on a sync.Mutex is not a
+// durable block for synctest, so a party that leaks its lock makes synctest.Wait wait for ever; this
+// turns that into a prompt, attributable report (all goroutine stacks on stderr) instead of a
+// supervisor time-out. It reads a counter and the real clock only, never anything a run depends on.
+func startStallWatchdog(limit time.Duration) {
+	go func() {
+		last, since := progress.Load(), time.Now()
+		for {
+			time.Sleep(time.Second)
+			if p := progress.Load(); p != last || !watching.Load() {
+				last, since = p, time.Now()
+				continue
+			}
+			if time.Since(since) > limit {
+				buf := make([]byte, 4<<20)
+				n := runtime.Stack(buf, true)
+				fmt.Fprintf(os.Stderr, "SIM-STALL: no simulator event for %v of real time in the run in progress; goroutines:\n%s\n", limit, buf[:n])
+				os.Exit(StallExit)
+			}
+		}
+	}()
+}
 
 // Gens maps a check id to its scenario generator: (tier, seed, run index) -> scenario.
 var Gens = map[string]func(tier string, seed uint64, run int) *Scenario{}
@@ -22,6 +55,7 @@ type Job struct {
 	Out       string      `json:"out"`
 	DeadlineS int         `json:"deadline_s"` // stop starting new runs after this many seconds
 	KeepLog   bool        `json:"keep_log"`
+	StallS    int         `json:"stall_s"` // real seconds without a simulator event before the run counts as hung (0: 120)
 }
 
 // WorkerMain runs a job; one JSON line per run is appended to job.Out, preceded by a BEGIN line
@@ -44,6 +78,10 @@ func WorkerMain(t *testing.T) {
 		t.Fatalf("open out: %v", err)
 	}
 	defer f.Close()
+	if job.StallS <= 0 {
+		job.StallS = 120
+	}
+	startStallWatchdog(time.Duration(job.StallS) * time.Second)
 	bw := bufio.NewWriter(f)
 	start := time.Now()
 	emit := func(sc *Scenario) {
